@@ -59,7 +59,7 @@ theorem hdrCost_le (bs : Bytes) : hdrCost bs ≤ 1503 := by
   · split <;> omega
   · omega
 
-theorem hdrCost_ok (bs r : Bytes) (p : Pkt) (h : decodeSampledHeader bs = .ok (p, r)) :
+theorem hdrCost_ok (bs r : Bytes) (p : Option Pkt) (h : decodeSampledHeader bs = .ok (p, r)) :
     hdrCost bs + 64 * r.length + 2 ≤ 64 * (bs.length + 8) := by
   unfold decodeSampledHeader at h
   unfold hdrCost
@@ -74,11 +74,12 @@ theorem hdrCost_ok (bs r : Bytes) (p : Pkt) (h : decodeSampledHeader bs = .ok (p
       split at h
       · simp at h
       · rename_i buf r' hrr
-        obtain ⟨_, hr', hpos⟩ := rawRead_some hrr
+        obtain ⟨_, hr'⟩ := readHdr_some hrr
         have hr : r = r' := by
           split at h
           · split at h <;> simp at h
-            exact h.2.symm
+            · exact h.2.symm
+            · exact h.2.symm
           all_goals simp at h
         subst hr hr'
         have hsum : ([4, 4, 4, 4] : List Nat).sum = 16 := by decide
@@ -130,11 +131,17 @@ theorem flowRecord_cost : CostOK 64 1505 flowRecordCost flowRecord := by
         · by_cases f3 : fmt = 1002
           · subst f3
             simp only [show ¬ ((1002 : Nat) = 1) by decide, show ¬ ((1002 : Nat) = 1001) by decide, if_true, if_false]
-            refine ⟨?_, by split <;> omega⟩
-            intro a r h
-            obtain ⟨p, hp⟩ := mapFst_ok h
-            have := (decodeExtRouter_good len r2).2 p r hp
-            split <;> omega
+            split
+            · refine ⟨?_, by omega⟩
+              intro a r h
+              simp at h
+              obtain ⟨_, rfl⟩ := h
+              rw [List.length_drop]; omega
+            · refine ⟨?_, by omega⟩
+              intro a r h
+              obtain ⟨p, hp⟩ := mapFst_ok h
+              have := (decodeExtRouter_good len r2).2 p r hp
+              omega
           · simp only [f1, f2, f3, if_false]
             refine ⟨?_, by omega⟩
             intro a r h
@@ -151,41 +158,35 @@ theorem counterRecord_cost : CostOK 64 1505 counterRecordCost counterRecord := b
 
 theorem flowSample_cost (bs : Bytes) :
     (∀ s r, decodeFlowSample bs = .ok (s, r) → flowSampleCost bs + 64 * r.length ≤ 64 * bs.length) ∧
-    flowSampleCost bs ≤ 64 * bs.length + 1507 := by
+    flowSampleCost bs ≤ 64 * bs.length + 1508 := by
   have hg := (decodeFlowSample_good bs).2
   unfold flowSampleCost
   split
-  · rename_i seq sid r0 h0
-    obtain ⟨_, hl0, _⟩ := readFields_some h0
-    split
-    · rename_i rate pool drops inp out n r1 h1
-      obtain ⟨_, hl1, _⟩ := readFields_some h1
-      obtain ⟨c1, c2⟩ := loopCost_le flowRecord_cost (r1.length + 1) n r1
-      have s0 : ([4, 1] : List Nat).sum = 5 := by decide
-      have s1 : ([4, 4, 4, 4, 4, 4] : List Nat).sum = 24 := by decide
-      rw [s0] at hl0
-      rw [s1, List.length_drop] at hl1
-      refine ⟨?_, by omega⟩
-      intro s r h
-      unfold decodeFlowSample at h
-      simp only [h0, h1] at h
-      cases hx : loopN flowRecord (r1.length + 1) n r1 with
-      | ok q =>
-        obtain ⟨items, r2⟩ := q
-        rw [hx] at h
-        simp at h
-        obtain ⟨_, rfl⟩ := h
-        have := c2 items r2 hx
-        omega
-      | err e => rw [hx] at h; simp at h
-      | panic => rw [hx] at h; simp at h
-      | fuel => rw [hx] at h; simp at h
-    · exact ⟨by intro s r h; have := hg s r h; omega, by omega⟩
+  · rename_i seq sid idx rate pool drops inp out n r1 h1
+    obtain ⟨_, hl1, _⟩ := readFields_some h1
+    obtain ⟨c1, c2⟩ := loopCost_le flowRecord_cost (r1.length + 1) n r1
+    have s1 : ([4, 1, 3, 4, 4, 4, 4, 4, 4] : List Nat).sum = 32 := by decide
+    rw [s1] at hl1
+    refine ⟨?_, by omega⟩
+    intro s r h
+    unfold decodeFlowSample at h
+    simp only [h1] at h
+    cases hx : loopN flowRecord (r1.length + 1) n r1 with
+    | ok q =>
+      obtain ⟨items, r2⟩ := q
+      rw [hx] at h
+      simp at h
+      obtain ⟨_, rfl⟩ := h
+      have := c2 items r2 hx
+      omega
+    | err e => rw [hx] at h; simp at h
+    | panic => rw [hx] at h; simp at h
+    | fuel => rw [hx] at h; simp at h
   · exact ⟨by intro s r h; have := hg s r h; omega, by omega⟩
 
 theorem counterSample_cost (bs : Bytes) :
     (∀ s r, decodeCounterSample bs = .ok (s, r) → counterSampleCost bs + 64 * r.length ≤ 64 * bs.length) ∧
-    counterSampleCost bs ≤ 64 * bs.length + 1507 := by
+    counterSampleCost bs ≤ 64 * bs.length + 1508 := by
   have hg := (decodeCounterSample_good bs).2
   unfold counterSampleCost
   split
@@ -211,7 +212,7 @@ theorem counterSample_cost (bs : Bytes) :
     | fuel => rw [hx] at h; simp at h
   · exact ⟨by intro s r h; have := hg s r h; omega, by omega⟩
 
-theorem sampleStep_cost (f : List Nat) : CostOK 64 1508 (sampleStepCost f) (sampleStep f) := by
+theorem sampleStep_cost (f : List Nat) : CostOK 64 1509 (sampleStepCost f) (sampleStep f) := by
   intro bs
   unfold sampleStepCost sampleStep
   cases hx : sampleInfo bs with
